@@ -73,7 +73,11 @@ var atoms = []atomDef{
 	{'a', 'O'}, {'b', 'O'}, {' ', 'O'}, {0x301, 'E'}, {0x200D, 'Z'}, {0xFE0F, 'E'}, {0x1F1E9, 'R'}, {0x1F1EA, 'R'},
 	{0x1F469, 'P'}, {0x1F680, 'P'}, {0x2764, 'P'}, {0x1100, 'L'}, {0x1161, 'V'}, {0x11A8, 'T'}, {0x4E16, 'O'}, {'e', 'O'},
 	{'-', 'O'}, {0x1F3FD, 'E'},
+	// TextField only (vaxis.Characters turns a tab into 8 blanks before textinput stores it): must stay last
+	{'\t', 'C'},
 }
+
+const atomTab = 18
 
 var atomId = map[rune]int{}
 
@@ -99,6 +103,25 @@ func charWidths(chs []vaxis.Character) string {
 	var out []string
 	for _, c := range chs {
 		out = append(out, strconv.Itoa(c.Width))
+	}
+	return strings.Join(out, ",")
+}
+
+// clusterWidths: for every grapheme cluster of s the widths of the characters it is drawn as, a+b+…
+func clusterWidths(s string) string {
+	if s == "" {
+		return "-"
+	}
+	var out []string
+	st := -1
+	var c string
+	for len(s) > 0 {
+		c, s, _, st = uniseg.FirstGraphemeClusterInString(s, st)
+		var ws []string
+		for _, ch := range vaxis.Characters(c) {
+			ws = append(ws, strconv.Itoa(ch.Width))
+		}
+		out = append(out, strings.Join(ws, "+"))
 	}
 	return strings.Join(out, ",")
 }
@@ -180,7 +203,7 @@ func header(kind string, n int, start []int) string {
 				a.WriteByte('0')
 			}
 		}
-		return fmt.Sprintf("%s:%d k=%s a=%s s=%s W=%s", kind, n, k.String(), a.String(), idList(start), charWidths(vaxis.Characters(str(start))))
+		return fmt.Sprintf("%s:%d k=%s a=%s s=%s W=%s", kind, n, k.String(), a.String(), idList(start), clusterWidths(str(start)))
 	}
 	var w, a []string
 	for i := range alphabet {
@@ -289,7 +312,7 @@ func (t *tfRun) obs() string {
 	return fmt.Sprintf("v=%s col=%s cb=%s", ids(t.tf.Value), col, cb)
 }
 
-func (t *tfRun) widths() string { return charWidths(vaxis.Characters(t.tf.Value)) }
+func (t *tfRun) widths() string { return clusterWidths(t.tf.Value) }
 
 func matchBits(k vaxis.Key) string {
 	b := []bool{
@@ -921,6 +944,11 @@ func run(r *hx.Run) error {
 									var ops [][]string
 									if kind == "tfc" {
 										ops = append(ops, []string{"cur", strconv.Itoa(pos)})
+										if len(ins) == 1 && ins[0] == 12 {
+											ins = []int{atomTab} // TextField: a pasted tab instead of the lone Hangul vowel
+										} else if len(ins) == 3 && ins[1] == 3 {
+											ins = []int{0, atomTab, 1}
+										}
 										if variant == 0 {
 											for _, a := range ins {
 												ops = append(ops, tfTextOp([]int{a}))
@@ -974,11 +1002,16 @@ func run(r *hx.Run) error {
 		if r.Thorough {
 			nRandC = 8000
 		}
+		tabOK := false
 		randAtoms := func(max int) []int {
 			n := rng.Range(1, max)
 			out := make([]int, n)
 			for i := range out {
-				out[i] = rng.Intn(len(atoms))
+				if tabOK {
+					out[i] = rng.Intn(len(atoms))
+				} else {
+					out[i] = rng.Intn(atomTab)
+				}
 			}
 			return out
 		}
@@ -988,6 +1021,7 @@ func run(r *hx.Run) error {
 				kind = "tic"
 			}
 			atomMode = true
+			tabOK = kind == "tfc"
 			start := randAtoms(8)
 			if rng.Chance(1, 4) {
 				start = nil
